@@ -129,6 +129,7 @@ class Gen:
             self.emit("storagecap %d" % storagecap)
         self.tok = 10
         self.after_parjob = False
+        self.shared_used = False     # a shared component was used at some point of this history (its archetypes stay)
         self.opaque = set()          # ordinals whose component set this reference state does not know (createin, their clones)
         self.seen_keys = set()       # (component set, shared values) of placed entities: each is an archetype that exists
         for _ in range(ndeps):
@@ -194,6 +195,7 @@ class Gen:
             sh = []
             if self.shared and r.random() < 0.25:
                 sh = sorted(r.sample(SHARED, r.randint(1, 3)))
+                self.shared_used = True
             o = ref.n
             ref.n += 1
             self.emit("%screate %s%s" % (p, ",".join(sorted(comps)) or "-", "".join(" " + s for s in sh)))
@@ -337,8 +339,8 @@ class Gen:
             mask = e["c"]
             # clears the FIRST archetype with this component mask: every alive entity with this mask and the
             # shared values of that first archetype; keep it unambiguous: only when no shared components are in play
-            if any(x["s"] for x in ref.alive.values()):
-                return
+            if any(x["s"] for x in ref.alive.values()) or self.shared_used:
+                return      # an archetype with this mask and shared values may exist (even empty) and come first
             for k in [k for k, x in ref.alive.items() if x["c"] == mask]:
                 ref.alive.pop(k)
             self.emit("cleararch %s" % (",".join(sorted(mask)) or "-"))
@@ -367,6 +369,7 @@ class Gen:
             s = r.choice(SHARED)
             v = r.randint(0, 2)
             e["s"][s] = v
+            self.shared_used = True
             self.emit("sassign %d %s %d" % (o, s, v))
         elif op == "sremove":
             if locked:
